@@ -5,6 +5,7 @@ package broker
 // built by struct literal (no TCP listener, no goroutines).
 
 import (
+	"sync/atomic"
 	"errors"
 	"io"
 	"net"
@@ -26,6 +27,8 @@ type hsock struct {
 	closed bool
 	in     []byte // what the client sends; EOF afterwards
 	gate   chan struct{} // native replays only: writes wait until it is closed (a stalled client)
+	slowFirst time.Duration // native replays only: the first write takes this long (a slow client)
+	nwrites   int32
 }
 
 func (s *hsock) Read(b []byte) (int, error) {
@@ -39,6 +42,9 @@ func (s *hsock) Read(b []byte) (int, error) {
 func (s *hsock) Write(b []byte) (int, error) {
 	if s.gate != nil {
 		<-s.gate
+	}
+	if s.slowFirst > 0 && atomic.AddInt32(&s.nwrites, 1) == 1 {
+		time.Sleep(s.slowFirst)
 	}
 	s.writes = append(s.writes, append([]byte(nil), b...))
 	return len(b), nil
